@@ -36,7 +36,7 @@ import ast
 from ..repo import AnalysisError, FuncInfo, dotted, own_nodes
 from ..sublist import SubInterp, is_sub
 from .c07 import registry
-from .common import ctor_self_write, key_lambda, one_shot_captures
+from .common import ctor_self_write, is_memo_fill, key_lambda, one_shot_captures
 
 MANIFEST = {
     "text": (
@@ -716,6 +716,31 @@ def per_dispatcher_caches(ctx):
                             x = x.value
                     if r:
                         caches.add((r, ast.unparse(t).replace(gme + ".", me + ".", 1) if gme != me else ast.unparse(t)))
+        # one record that holds the dispatcher together with the observers fetched
+        # from it, always replaced as a whole: `self.<r> = Record(dispatcher, ...create_or_get_observer(...)...)`
+        # under a test of `<self.<r>>.<field> is dispatcher` - tag and observers cannot get out of step
+        for a in own_nodes(f.node):
+            if not (isinstance(a, ast.Assign) and len(a.targets) == 1 and self_attr(a.targets[0]) and isinstance(a.value, ast.Call)):
+                continue
+            cargs = list(a.value.args) + [k.value for k in a.value.keywords]
+            if not any(isinstance(x, ast.Name) and x.id == dp for x in cargs):
+                continue
+            if not any(isinstance(y, ast.Call) and isinstance(y.func, ast.Attribute) and y.func.attr == "create_or_get_observer" for x in cargs for y in ast.walk(x)):
+                continue
+            rec = self_attr(a.targets[0])
+            tested = any(
+                isinstance(t, ast.Compare) and len(t.ops) == 1 and isinstance(t.ops[0], (ast.Is, ast.IsNot))
+                and any(isinstance(x, ast.Name) and x.id == dp for x in (t.left, t.comparators[0]))
+                and any(isinstance(x, ast.Attribute) and root_attr(x.value) == rec for x in (t.left, t.comparators[0]))
+                for t in own_nodes(f.node)
+            )
+            elsewhere = [
+                x for g in scan for x in own_nodes(g.node)
+                if isinstance(x, ast.Attribute) and isinstance(x.ctx, ast.Store) and isinstance(x.value, ast.Attribute) and x.value.attr == rec
+            ]
+            if tested and not elsewhere:
+                n += 1
+                chk.ok("R04.l", f"{c.qualname}.{rec}", f.loc(a), f"`self.{rec}` holds the dispatcher and its observers in one record that is replaced as a whole")
         if not caches:
             continue
         for st in own_nodes(f.node):
@@ -889,6 +914,8 @@ def purity(ctx):
         bad = False
         for w in ctx.effects.closure_writes(fi, fi.cls, max_depth=3, stop=lambda t: t.name in ("create_or_get_observer", "__init__")):
             obj = w.obj
+            if is_memo_fill(ctx, w.event):
+                continue  # a correctly invalidated private memo
             if ctor_self_write(w):
                 continue  # a private helper object initialising itself
             # rebinding an attribute of the callable object itself is its own state
@@ -912,6 +939,36 @@ def purity(ctx):
             shared = [o for o in w.origins if is_shared(o) and o[0] not in ("unknown", "global")]
             if not shared:
                 continue
+            # a private helper that writes into one of its *parameters* is judged
+            # by what its callers hand it: a fresh copy is the caller's own
+            def _param_of(o):
+                while o[0] == "elem":
+                    o = o[1]
+                return o[1] if o[0] == "param" else None
+
+            pnames = {_param_of(o) for o in shared}
+            if None not in pnames and w.fi.name.startswith("_") and not w.fi.name.startswith("__") and all(p_ in w.fi.params for p_ in pnames):
+                from ..lifecycle import Lifecycle
+
+                lc_ = Lifecycle(ctx)
+                sites = 0
+                dirty = False
+                for g in ctx.repo.all_functions():
+                    if isinstance(g.node, ast.Lambda):
+                        continue
+                    for ev_, t_, _rc in ctx.effects.calls(g, g.cls):
+                        if t_ is not w.fi:
+                            continue
+                        sites += 1
+                        for p_ in pnames:
+                            arg = lc_._arg_expr(ev_, t_, t_.params.index(p_))
+                            if arg is None:
+                                dirty = True
+                                continue
+                            if any(is_shared(o2) and o2[0] not in ("unknown", "global") for o2 in ctx.flow.origins(g, arg, g.cls)):
+                                dirty = True
+                if sites and not dirty:
+                    continue
             bad = True
             chk.violation(
                 "R04.g", fi, w.event.node,
